@@ -188,6 +188,19 @@ def parseBool (v : Bytes) : Option Bool :=
   else if v = asciiBytes "false" then some false
   else none
 
+/-- clap's `value_parser!(u16)` (`RangedI64ValueParser<u16>`): the text is read as an `i64`, then it must lie in `0..=65535`
+(so `+80`, `080` and `-0` are port numbers, `65536` and `-1` are not) -/
+def clapU16 (v : Bytes) : Option Nat :=
+  match parseSigned 64 v with
+  | some n => if 0 ≤ n ∧ n ≤ 65535 then some n.toNat else none
+  | none => none
+
+/-- clap's `value_parser!(i32)` (`RangedI64ValueParser<i32>`): an `i64` in the range of `i32` -/
+def clapI32 (v : Bytes) : Option Int :=
+  match parseSigned 64 v with
+  | some n => if -2147483648 ≤ n ∧ n ≤ 2147483647 then some n else none
+  | none => none
+
 /-- `#[command(flatten)] timeout_settings: Option<TimeoutSettings>`: `Some` exactly when one of the group's flags occurs
 (the others then take their default values "4" / "0"); every value goes through its parser -/
 def clapTimeout (fl : Flags) : Option (Option Settings.Timeout) :=
@@ -197,7 +210,7 @@ def clapTimeout (fl : Flags) : Option (Option Settings.Timeout) :=
 /-- `#[command(flatten)] extra_options: Option<ExtraRequestSettings>` -/
 def clapExtra (fl : Flags) : Option (Option Dispatch.Extra) := do
   let hostname ← clapOpt clapString fl.hostname
-  let protocolVersion ← clapOpt (parseSigned 32) fl.protocolVersion
+  let protocolVersion ← clapOpt clapI32 fl.protocolVersion
   let gatherPlayers ← clapOpt parseToggle fl.gatherPlayers
   let gatherRules ← clapOpt parseToggle fl.gatherRules
   let checkAppId ← clapOpt parseBool fl.checkAppId
@@ -209,7 +222,7 @@ def clapExtra (fl : Flags) : Option (Option Dispatch.Extra) := do
 def clap (fl : Flags) : Option Args := do
   let game ← fl.game.bind clapString
   let ip ← fl.ip.bind clapString
-  let port ← clapOpt (parseUnsigned 16) fl.port
+  let port ← clapOpt clapU16 fl.port
   let format ← clapOpt parseFormat fl.format
   let mode ← clapOpt parseMode fl.outputMode
   let timeout ← clapTimeout fl
